@@ -14,7 +14,7 @@ FAMS = {
     "C05": (["retry"], ["retry", "retrychk"]),
     "C06": (["gates"], ["gates", "gates2"]),
     "C07": (["contq", "gates"], ["cont", "gates", "gates2", "live"]),
-    "C08": (["order", "retry"], ["order", "retry", "tolerance", "gates"]),
+    "C08": (["order", "retry", "poll"], ["order", "retry", "poll", "tolerance", "gates"]),
     "C09": (["crash", "crash2"], ["crash", "crash2", "crashchk", "crashchkfn"]),
     "C10": (["crashfn", "crashchkfn", "crash"], ["crash", "crashfn", "crash2", "crash2fn", "crashchk", "crashchkfn", "livecrash"]),
     "C11": ([], []),
